@@ -215,6 +215,15 @@ func runPlanA(c *verdict.Ctx, r *crash.Runner, template string, k int, first str
 		c.Violation(f.Key, f.What, w)
 	}
 	if !last.Reached && res.Handshake.Err == "" && last.Stalled {
+		// a node that is really stuck stays stuck: give it one more incarnation before judging
+		again := r.Extra(res, crash.Step{Target: h0 + 5})
+		if again.Reached {
+			c.Count("stall_not_confirmed_on_second_attempt", 1)
+			c.Inconclusive("final run stalled once but the node committed on a further restart")
+			return
+		}
+		last = again
+		w["incarnations"] = res.Incs
 		// classify the one stall that is understood: an earlier crash fell between saving block h and the
 		// WAL end-of-height marker for h (the handshake then applies block h but nobody writes the marker),
 		// and a later crash at height h+1 came after the validator had signed there: catch-up replay of h+1
